@@ -66,6 +66,17 @@ def run(tier, seed, only=None):
         if kind == "order":
             a, b = mesh[tuple(ob.meta["a"])], mesh[tuple(ob.meta["b"])]
             return not (b > a), "ordering violated: mesh%s = %.12g, mesh%s = %.12g" % (ob.meta["a"], a, ob.meta["b"], b)
+        if kind in ("gfm_left", "gfm_right"):
+            half = np.asarray(gen(dict(d, symmetry=True)), dtype=float)
+            arg = half.copy() if kind == "gfm_left" else (np.flip(half, axis=1) * np.array([1.0, -1.0, 1.0])).copy()
+            keep = arg.copy()
+            back = np.asarray(gu.getFullMesh(left_mesh=arg) if kind == "gfm_left" else gu.getFullMesh(right_mesh=arg), dtype=float)
+            bad = []
+            if back.shape != mesh.shape or np.abs(back - mesh).max() > 1e-9:
+                bad.append("getFullMesh(%s half) differs from the full mesh by %.6g" % ("left" if kind == "gfm_left" else "right", np.abs(back - mesh).max() if back.shape == mesh.shape else np.inf))
+            if np.abs(arg - keep).max() > 0:
+                bad.append("the caller's half mesh was modified in place (max change %.6g)" % np.abs(arg - keep).max())
+            return bool(bad), "; ".join(bad) or "mirroring back reproduces the full mesh"
         return None, "no replay"
 
     for (nx, ny) in sizes:
@@ -120,9 +131,9 @@ def run(tier, seed, only=None):
         else:
             for idx in np.ndindex(nx, ny, 3):
                 obs.append(oblig.Ob("getFullMesh(left half) %s" % list(idx), lhs=back[idx], rhs=full[idx], assume=assume,
-                                    meta={"family": "mirroring the half mesh reproduces the full mesh", "kind": "x", "dict": dmeta}))
+                                    meta={"family": "mirroring the half mesh reproduces the full mesh", "kind": "gfm_left", "dict": dmeta}))
                 obs.append(oblig.Ob("getFullMesh(right half) %s" % list(idx), lhs=back_r[idx], rhs=full[idx], assume=assume,
-                                    meta={"family": "mirroring the half mesh reproduces the full mesh", "kind": "x", "dict": dmeta}))
+                                    meta={"family": "mirroring the half mesh reproduces the full mesh", "kind": "gfm_right", "dict": dmeta}))
         run_obligations(rep, "rect mesh num_x=%d num_y=%d" % (nx, ny), obs, timeout, replay=replay,
                         family=lambda ob: "generate_mesh(rect): " + ob.meta["family"], box=(0.05, 0.95),
                         fixed={"span": 10.0, "root_chord": 2.0})
